@@ -81,3 +81,12 @@ Theorem VM_witness_is_cut_off_now :
     (st_count (snd (run F bld 150 nested_budget_program fresh_state)) <= 150)%N.
 Proof. exact witness_is_cut_off_now. Qed.
 Print Assumptions VM_witness_is_cut_off_now.
+
+(* the fuel of the dispatch loop is only the structural argument of the recursion: any fuel that covers the
+   remaining budget computes the same `_run`, at every nesting level - the loop never stops for lack of fuel *)
+Theorem VM_dispatch_fuel_irrelevant : forall F bld P max_instr d fuel ip s,
+  (st_rem s <= N.of_nat fuel)%N ->
+  loop F bld P (run_at F bld P false max_instr d) fuel ip s
+  = run_loop F bld P (run_at F bld P false max_instr d) ip s.
+Proof. exact dispatch_fuel_irrelevant. Qed.
+Print Assumptions VM_dispatch_fuel_irrelevant.
